@@ -18,7 +18,8 @@ RULE = ('request paths assembled from traversal-significant pieces (.., ., %2e%2
         'Unicode look-alikes of . .. / \\ and of existing names (computed from unicodedata: every character some normal form '
         'maps onto them, ignorable characters, fullwidth / other-case names), raw / percent-encoded once / twice, x 4 mountings (add_static_view route, catch-all *subpath route, plain '
         'view on PATH_INFO, plain view with a given request.subpath) x filesystem and package-relative roots x '
-        'Accept-Encoding values x content_encodings, plus all 6^4 combinations of six core pieces; non-trivial = the '
+        'Accept-Encoding values x content_encodings (package roots given as pkg:dir, as a relative dir with package_name=, and as a '
+        'relative dir resolved against the package of the module that creates the view / the Configurator), plus all 6^4 combinations of six core pieces; non-trivial = the '
         'static view itself was reached and either answered 200/301 or the path contains a traversal-significant '
         'piece; distinct by full case.  In addition exhaustive UTF-8 blocks (Lib/Utf8.decode vs traversal.decode_path_info)')
 ASSUMPTIONS = [
@@ -116,7 +117,26 @@ ROOTS = {
     'pkg-rel': (True, 'static', PKG),
     'pkgb': (True, PKGB + ':static', None),
     'pkgb-rel': (True, 'static', PKGB),
+    # a RELATIVE root_dir without ':' and without package_name: relative to the package of the CALLER.  The view / the
+    # Configurator is created by a module of that package (world/<pkg>/factory.py), see CALLER
+    'pkg-caller': (True, 'static', None),
+    'pkgb-caller': (True, 'static', None),
+    'pkg-caller-sub': (True, 'static/sub', None),
+    'pkg-caller-scripts': (True, 'scripts', None),        # a name that also exists inside the pyramid package
 }
+CALLER = {'pkg-caller': PKG, 'pkgb-caller': PKGB, 'pkg-caller-sub': PKG, 'pkg-caller-scripts': PKG}
+FACTORY = '''from pyramid.config import Configurator
+from pyramid.static import static_view
+
+
+def make_view(root_dir, **kw):
+    return static_view(root_dir, **kw)
+
+
+def make_config(**kw):
+    return Configurator(**kw)
+'''
+SCRIPTS_FILES = {'pserve.py': 9, 'common.py': 6, 'index.html': 5, 'notes.txt': 4}
 MOUNTS = ['route', 'catchall', 'view', 'subpath']
 ENC_SETS = [[], ['gzip'], ['gzip', 'br'], ['br', 'gzip'], ['gzip', 'compress', 'bzip2', 'xz', 'br']]
 AE_VALUES = [None, '', 'gzip', 'br', 'gzip, br', 'br, gzip;q=0.5', 'gzip;q=0', '*', '*;q=0', 'identity', 'identity;q=0',
@@ -146,7 +166,7 @@ def _make_world():
         os.makedirs(os.path.dirname(p), exist_ok=True)
         n[0] += 1
         with open(p, 'w', encoding='utf-8', newline='') as f:
-            f.write(_content(tag, n[0], size) if not rel.endswith('.py') else '')
+            f.write(_content(tag, n[0], size) if not rel.endswith('__init__.py') else '')
     for rel in sorted(OUTSIDE):
         put(BASE, rel, OUTSIDE[rel], 'ROOT' if rel == 'rootfile' else SENT)
     for rel in sorted(ROOT_FILES):
@@ -156,6 +176,11 @@ def _make_world():
     put(BASE, PKGB + '/__init__.py', 0, '')
     for rel in sorted(PKGB_FILES):
         put(os.path.join(BASE, PKGB, 'static'), rel, PKGB_FILES[rel], 'q')
+    for rel in sorted(SCRIPTS_FILES):
+        put(os.path.join(BASE, PKG, 'scripts'), rel, SCRIPTS_FILES[rel], 's')
+    for pkg in (PKG, PKGB):
+        with open(os.path.join(BASE, pkg, 'factory.py'), 'w') as f:
+            f.write(FACTORY)
 
 
 def _listing():
@@ -273,7 +298,7 @@ REAL_PATHS = ['', 'index.html', 'file.txt', 'file.txt', 'big.css', 'same.js', 'o
               'sub/x.css', 'sub/x.css', 'sub/deep', 'sub/deep/', 'sub/deep/z.js', 'noindex', 'noindex/', 'noindex/only.txt',
               'dirindex/', 'vardir.txt', 'home.htm', 'sub/home.htm', 'file.txt.gz', 'x.css', 'deep/z.js', 'index.html/',
               'docs.v1', 'docs.v1/', 'docs.v1/a.txt', 'docs.v1/img.d', 'docs.v1/img.d/', 'docs.v1/img.d/x.png',
-              'dirindex/index.html', 'vardir.txt.gz']
+              'dirindex/index.html', 'vardir.txt.gz', 'pserve.py', 'common.py', 'notes.txt']
 MOUNT_PREFIX = {'route': '/static/', 'catchall': '/', 'view': '/', 'subpath': '/'}
 
 
@@ -448,7 +473,9 @@ def gen_case(rng):
 TWIN = {'pkg': ['pkgb', 'pkgb-rel', 'pkg', 'pkg-sub'], 'pkg-slash': ['pkgb', 'pkg'], 'pkg-rel': ['pkgb-rel', 'pkgb'],
         'pkgb': ['pkg', 'pkg-rel', 'pkgb'], 'pkgb-rel': ['pkg-rel', 'pkg'], 'pkg-sub': ['pkg', 'pkgb'],
         'fs': ['fs', 'fs-slash', 'fs-dots', 'fs-sub', 'pkg'], 'fs-slash': ['fs'], 'fs-dots': ['fs'], 'fs-up': ['fs'],
-        'fs-sub': ['fs'], 'fs-missing': ['fs'], 'fs-file': ['fs']}
+        'fs-sub': ['fs'], 'fs-missing': ['fs'], 'fs-file': ['fs'],
+        'pkg-caller': ['pkgb-caller', 'pkg', 'pkg-caller-scripts'], 'pkgb-caller': ['pkg-caller', 'pkgb'],
+        'pkg-caller-sub': ['pkg-caller'], 'pkg-caller-scripts': ['pkg-caller', 'pkgb-caller']}
 SHARED_NAMES = ['file.txt', 'index.html', 'big.css', 'same.js', 'sub/x.css', 'sub/', '', 'only_b.txt', 'only.txt',
                 'sub/index.html', 'noindex/only.txt']
 
@@ -640,6 +667,8 @@ def _root_pkg(root):
     is_pkg, spec, pname = ROOTS[root]
     if not is_pkg:
         return PKG
+    if root in CALLER:
+        return CALLER[root]
     return spec.split(':', 1)[0] if ':' in spec else pname
 
 
@@ -738,6 +767,12 @@ def _view(case):
 def _get_app(case):
     from pyramid.config import Configurator
     kw, spec = _view(case)
+    make_view = _state['static_view']
+    if case['root'] in CALLER:
+        # created by a module of the package the relative root is meant to be relative to
+        import importlib
+        factory = importlib.import_module(CALLER[case['root']] + '.factory')
+        make_view, Configurator = factory.make_view, factory.make_config
     if case['mount'] == 'route':
         ckw = {'package': kw['package_name']} if kw.get('package_name') else {}
         config = Configurator(settings={'pyramid.reload_assets': case['reload']}, **ckw)
@@ -746,12 +781,12 @@ def _get_app(case):
     elif case['mount'] == 'catchall':
         config = Configurator()
         config.add_route('catchall', '/*subpath')
-        config.add_view(_state['static_view'](spec, use_subpath=True, **kw), route_name='catchall')
+        config.add_view(make_view(spec, use_subpath=True, **kw), route_name='catchall')
         app = ('wsgi', config.make_wsgi_app())
     elif case['mount'] == 'view':
-        app = ('view', _state['static_view'](spec, use_subpath=False, **kw))
+        app = ('view', make_view(spec, use_subpath=False, **kw))
     else:
-        app = ('view', _state['static_view'](spec, use_subpath=True, **kw))
+        app = ('view', make_view(spec, use_subpath=True, **kw))
     return app
 
 
